@@ -19,6 +19,10 @@
 (* (the package manager switching revisions between active and inactive:   *)
 (* upgrade and rollback, revisions reconciled in any order) acts between   *)
 (* reconciles.  Package P has revisions R1, R2; Q is a foreign controller. *)
+(* Orderings of the calls of several establisher workers are not part of   *)
+(* this model: the harness explores them on the real code (parallel mode,  *)
+(* calls serialised by a seeded gate) and the monitor judges them with the *)
+(* same formulas, none of which depends on the call order.                 *)
 (*                                                                         *)
 (* Properties: C16 and the C02 placement "package object controlled by     *)
 (* another package".                                                       *)
@@ -234,12 +238,10 @@ WrVerb(o) == IF obj[o].ex THEN "update" ELSE "create"
 EstWrite ==
   /\ pc = "est"
   /\ LET o == Head(todo) IN
-     \/ /\ Ok(WrVerb(o), o)
-        /\ (IF o \in rej
-            THEN UNCHANGED obj /\ End
-            ELSE obj' = Written(o) /\ EstNext)
+     \* o \notin rej here: rej does not change and the dry-run of o passed in the validate phase
+     \/ Ok(WrVerb(o), o) /\ obj' = Written(o) /\ EstNext
      \/ Fail(WrVerb(o), o) /\ End /\ UNCHANGED obj
-     \/ Crash(WrVerb(o), o) /\ End /\ obj' = (IF o \in rej THEN obj ELSE Written(o))
+     \/ Crash(WrVerb(o), o) /\ End /\ obj' = Written(o)
   /\ UNCHANGED <<rej, rev, cur, ctl, edits, doneOk>>
 
 \* ---- the reconciler records the refs (all objects of the package) and reports Healthy
